@@ -45,8 +45,11 @@ _Set_update(Bucket *self, PyObject *seq)
     while (1) {
         v = PyIter_Next(iter);
         if (v == NULL) {
-            if (PyErr_Occurred())
+            if (PyErr_Occurred()) {
+                /* the iterable itself failed:  report that, not a count */
+                ind = -1;
                 goto err;
+            }
             else
                 break;
         }
